@@ -270,10 +270,10 @@ type vT struct {
 	kids []*vT
 }
 
-func vtInt(n uint64) *vT  { return &vT{k: 'i', n: n} }
+func vtInt(n uint64) *vT    { return &vT{k: 'i', n: n} }
 func vtBytes_(b []byte) *vT { return &vT{k: 'b', b: append([]byte(nil), b...)} }
-func vtNone() *vT         { return &vT{k: 'n'} }
-func vtSome(x *vT) *vT    { return &vT{k: 's', kids: []*vT{x}} }
+func vtNone() *vT           { return &vT{k: 'n'} }
+func vtSome(x *vT) *vT      { return &vT{k: 's', kids: []*vT{x}} }
 
 const vHexDigits = "0123456789abcdef"
 
